@@ -147,3 +147,6 @@ def run(ctx):
     from .common import import_obligations
     # the cell built for a family is one the family's operations leave invariant (C04.R3: angle start and degrees of freedom per family)
     import_obligations(ctx, 'C04', 'R7', only_rules={'R3'}, floor=5)
+    # ... and a cloned cell keeps family and parameters (C04.R4)
+    import_obligations(ctx, 'C04', 'R7', only_rules={'R4'}, floor=1)
+
